@@ -46,6 +46,27 @@ def Cond.evalB (vs : Vars) : Cond → Option Bool
   | .nonbool => Option.none
   | .unknown => Option.none
 
+/-- What the XPath engine computes today when the instance has two or more variables: the variables are
+serialised as `<doc><v>…</v>…</doc>` and a relative path `v` evaluated at the document root selects
+nothing, so every comparison with a variable is false (pkg/expression/xpath). -/
+def Cond.evalXPathNoVars : Cond → Option Bool
+  | .none => some true
+  | .informal => some true
+  | .tt => some true
+  | .ff => some false
+  | .eq _ _ => some false
+  | .ne _ _ => some false
+  | .lt _ _ => some false
+  | .and a b => do
+      let x ← a.evalXPathNoVars
+      if x then b.evalXPathNoVars else pure false
+  | .or a b => do
+      let x ← a.evalXPathNoVars
+      if x then pure true else b.evalXPathNoVars
+  | .not a => (a.evalXPathNoVars).map (!·)
+  | .nonbool => Option.none
+  | .unknown => Option.none
+
 def Cond.eval (vs : Vars) (c : Cond) : CondResult :=
   match c.evalB vs with
   | some true => .yes
